@@ -15,9 +15,7 @@ is compared too.
 """
 import contextlib
 import itertools
-import math
 
-import numpy as np
 import torch
 
 import gpytorch
